@@ -132,7 +132,8 @@ Inductive event :=
 | EvFilterUpdateTimer (p : nat)
 | EvBmca
 | EvSetClockQuality (q : clock_quality)
-| EvSetSlaveOnly (b : bool).
+| EvSetSlaveOnly (b : bool)
+| EvTick (ns : Z).                (* host-side passage of time: no call into the library *)
 
 Record port := mkPort {
   p_config : port_config;
